@@ -84,6 +84,20 @@ def gen_cases(rng, tier):
             if rng.random() < 0.5:
                 op['w'], op['v'] = v if v in same else w, u     # round trip
         cases.append({'world': world, 'dm': rng.choice(W.MODES), 'op': op})
+    # units given as TERMS  int x reference unit  (plain Python ints): every ordered pair
+    # (the ratio of two int scales must not become a float: finding F21)
+    for t in range(3 if tier == 'quick' else 30):
+        tag = ''.join(rng.choice('abcdefghij') for _ in range(3))
+        fs = rng.sample([3, 7, 12, 60, 1000, 1024, 9, 11], 4)
+        units = [{'sym': f"{tag}t{i}", 'factor': f"{f}/1", 'fkind': 'int', 'base': f"{tag}r",
+                  'via': 'term'} for i, f in enumerate(fs)]
+        world = {'predefined': False,
+                 'classes': [{'name': f"Ut{tag}", 'ref': f"{tag}r", 'quantum': None, 'units': units}]}
+        syms = [u['sym'] for u in units]
+        for u, v in itertools.permutations(syms, 2):
+            cases.append({'world': world, 'dm': rng.choice(W.MODES),
+                          'op': {'o': rng.choice(['convert', 'conveq']),
+                                 'x': ['q', _amount(rng), u], 'v': v}})
     return cases
 
 
